@@ -77,6 +77,10 @@ type c18FlowCase struct {
 	// Script "random": the generated release script. "settings-release": the connection window is opened, MOSN uses up
 	// the small initial stream windows, then a larger INITIAL_WINDOW_SIZE is the only release the streams get.
 	Script string
+
+	// onPanic is set per run: a panic in MOSN's sending path (it runs on the harness goroutine that called
+	// AppendData) is reported instead of killing the worker
+	onPanic func(what string)
 }
 
 func (cs *c18FlowCase) String() string {
@@ -552,6 +556,9 @@ func c18RunPeerScript(p *c18Peer, rng *lab.Rand, start func(i int) bool) (verdic
 		p.drains++
 		p.mu.Unlock()
 		if res != "ok" {
+			if c18Violated(p) {
+				return "violated"
+			}
 			return "MOSN did not use the initial window within watchdog"
 		}
 		big := int64(0)
@@ -638,6 +645,9 @@ func c18RunPeerScript(p *c18Peer, rng *lab.Rand, start func(i int) bool) (verdic
 					ok := p.waitFor(c18SyncWatchdog, func() bool { return p.wPend < 0 })
 					p.mu.Unlock()
 					if !ok {
+						if c18Violated(p) {
+							return "violated"
+						}
 						return "SETTINGS not acknowledged within watchdog"
 					}
 				}
@@ -669,7 +679,11 @@ func c18RunPeerScript(p *c18Peer, rng *lab.Rand, start func(i int) bool) (verdic
 			p.mu.Lock()
 			if p.wPend >= 0 {
 				if !p.waitFor(c18SyncWatchdog, func() bool { return p.wPend < 0 }) {
+					v := p.violated
 					p.mu.Unlock()
+					if v {
+						return "violated"
+					}
 					return "SETTINGS not acknowledged within watchdog"
 				}
 			}
@@ -683,10 +697,12 @@ func c18RunPeerScript(p *c18Peer, rng *lab.Rand, start func(i int) bool) (verdic
 			})
 			p.drains++
 			p.mu.Unlock()
-			switch res {
-			case "nudged":
+			switch {
+			case res == "nudged":
 				return "stalled-until-nudge"
-			case "timeout":
+			case res == "timeout" && c18Violated(p):
+				return "violated"
+			case res == "timeout":
 				return "MOSN did not use the released window within watchdog"
 			}
 		}
@@ -791,6 +807,12 @@ func c18RunPeerScript(p *c18Peer, rng *lab.Rand, start func(i int) bool) (verdic
 	return "ok"
 }
 
+func c18Violated(p *c18Peer) bool {
+	p.mu.Lock()
+	defer p.mu.Unlock()
+	return p.violated
+}
+
 func c18NewPeer(c *lab.Ctx, cs *c18FlowCase, nc net.Conn, r io.Reader) *c18Peer {
 	p := &c18Peer{c: c, cs: cs, nc: nc, connAllow: 65535, wCur: 65535, wPend: -1, fCur: 16384, fPend: 16384, byID: map[uint32]*c18PStream{}}
 	p.cond = sync.NewCond(&p.mu)
@@ -859,6 +881,7 @@ func (r *c18SrvRecv) OnReceive(ctx context.Context, headers api.HeaderMap, data 
 	size, salt := r.cs.Sizes[idx], r.cs.Salts[idx]
 	// like the proxy: the response is produced on another goroutine than the connection's read loop
 	go func() {
+		defer c18RecoverSender(r.cs, fmt.Sprintf("response idx=%d", idx))
 		rsp := &http.Response{StatusCode: 200, Header: http.Header{"X-Idx": []string{v}, "Content-Type": []string{"application/octet-stream"}}}
 		hdr := mhttp2.NewRspHeader(rsp)
 		if r.cs.UseStream {
@@ -903,6 +926,26 @@ func c18SendBuffer(useStream bool, body []byte) buffer.IoBuffer {
 	return pb
 }
 
+func c18RecoverSender(cs *c18FlowCase, what string) {
+	if r := recover(); r != nil {
+		if f := cs.onPanic; f != nil {
+			f(fmt.Sprintf("%s: panic in MOSN's send path: %v", what, r))
+		}
+	}
+}
+
+func (p *c18Peer) panicHook() func(string) {
+	return func(what string) {
+		p.mu.Lock()
+		defer p.mu.Unlock()
+		p.logf("%s", what)
+		if !p.closing {
+			p.violate("sender-panic", what)
+		}
+		p.cond.Broadcast()
+	}
+}
+
 type c18CliRecv struct{ done chan struct{} }
 
 func (r *c18CliRecv) OnDecodeError(ctx context.Context, err error, headers api.HeaderMap) {}
@@ -923,7 +966,9 @@ func c18StreamCtx() context.Context {
 }
 
 // c18RunFlowCase returns the verdict string of the script ("ok", "violated", or a reason that is inconclusive).
-func c18RunFlowCase(c *lab.Ctx, cs *c18FlowCase, rng *lab.Rand) (verdict string, p *c18Peer) {
+func c18RunFlowCase(c *lab.Ctx, cs0 *c18FlowCase, rng *lab.Rand) (verdict string, p *c18Peer) {
+	csCopy := *cs0 // every run owns its case record (hooks of an earlier run of the same case may still be referenced)
+	cs := &csCopy
 	ln, err := net.Listen("tcp", "127.0.0.1:0")
 	if err != nil {
 		return "listen: " + err.Error(), nil
@@ -959,6 +1004,7 @@ func c18RunFlowCase(c *lab.Ctx, cs *c18FlowCase, rng *lab.Rand) (verdict string,
 		defer mconn.Close(api.NoFlush, api.LocalClose)
 
 		p = c18NewPeer(c, cs, peerConn, peerConn)
+		cs.onPanic = p.panicHook()
 		if _, err := peerConn.Write([]byte(xh2.ClientPreface)); err != nil {
 			return "preface: " + err.Error(), p
 		}
@@ -1009,6 +1055,7 @@ func c18RunFlowCase(c *lab.Ctx, cs *c18FlowCase, rng *lab.Rand) (verdict string,
 	}
 	defer a.nc.Close()
 	p = c18NewPeer(c, cs, a.nc, a.nc)
+	cs.onPanic = p.panicHook()
 	pre := make([]byte, len(xh2.ClientPreface))
 	a.nc.SetReadDeadline(time.Now().Add(c18SyncWatchdog))
 	if _, err := io.ReadFull(a.nc, pre); err != nil || string(pre) != xh2.ClientPreface {
@@ -1025,6 +1072,7 @@ func c18RunFlowCase(c *lab.Ctx, cs *c18FlowCase, rng *lab.Rand) (verdict string,
 		p.logf("MOSN starts request idx=%d size=%d", i, cs.Sizes[i])
 		p.mu.Unlock()
 		go func() {
+			defer c18RecoverSender(cs, fmt.Sprintf("request idx=%d", i))
 			ctx := c18StreamCtx()
 			if cs.UseStream {
 				_ = variable.Set(ctx, types.VarHttp2RequestUseStream, true)
